@@ -821,7 +821,9 @@ def eager_getitem_tensor_variable(op, lhs, rhs):
     offset = op.defaults["offset"]
     assert offset < len(lhs.output.shape)
     assert rhs.output == Bint[lhs.output.shape[offset]]
-    assert rhs.name not in lhs.inputs
+    if rhs.name in lhs.inputs:
+        # The index variable is also a batch input: take the diagonal.
+        return eager_getitem_tensor_tensor(op, lhs, lhs.materialize(rhs))
 
     # Convert a positional event dimension to a named batch dimension.
     inputs = lhs.inputs.copy()
